@@ -8,7 +8,6 @@ import (
 )
 
 type (
-	WaitGroup = sync.WaitGroup
 	Once      = sync.Once
 	Map       = sync.Map
 	Pool      = sync.Pool
@@ -72,3 +71,30 @@ func (m *RWMutex) RLock() {
 	}
 }
 func (m *RWMutex) RUnlock() { m.mu.RUnlock(); vsched.Yield() }
+
+
+// WaitGroup: Wait from a controlled goroutine parks in the scheduler instead of blocking the runtime.
+type WaitGroup struct {
+	mu sync.Mutex
+	n  int
+	wg sync.WaitGroup
+}
+
+func (w *WaitGroup) Add(d int) {
+	w.mu.Lock()
+	w.n += d
+	w.mu.Unlock()
+	w.wg.Add(d)
+}
+func (w *WaitGroup) Done() { w.Add(-1); vsched.Yield() }
+func (w *WaitGroup) Wait() {
+	if !vsched.Controlled() {
+		w.wg.Wait()
+		return
+	}
+	vsched.Yield()
+	zero := func() bool { w.mu.Lock(); defer w.mu.Unlock(); return w.n == 0 }
+	for !zero() {
+		vsched.Block(zero)
+	}
+}
